@@ -57,11 +57,17 @@ pub enum Term {
     /// `min()` / `max()` over items whose `Ord` has ties between distinguishable elements (tok::TieTok)
     MinTie,
     MaxTie,
+    /// collects of a zero-sized output type: `.map(|_| ())` appended to the chain, the result is the number of elements
+    ZCollect,
+    ZCollectVec,
+    ZCollectX,
+    ZIntoSplit,
+    ZIntoVec,
     /// build the computation, never run it
     Build,
 }
 
-pub const ALL_TERMS: [(Term, &str); 28] = [
+pub const ALL_TERMS: [(Term, &str); 33] = [
     (Term::CollectVec, "collect_vec"),
     (Term::Collect, "collect"),
     (Term::CollectX, "collect_x"),
@@ -89,6 +95,11 @@ pub const ALL_TERMS: [(Term, &str); 28] = [
     (Term::MaxByKey, "max_by_key"),
     (Term::MinTie, "min_tie"),
     (Term::MaxTie, "max_tie"),
+    (Term::ZCollect, "zcollect"),
+    (Term::ZCollectVec, "zcollect_vec"),
+    (Term::ZCollectX, "zcollect_x"),
+    (Term::ZIntoSplit, "zinto_split"),
+    (Term::ZIntoVec, "zinto_vec"),
     (Term::Build, "build"),
 ];
 
@@ -115,7 +126,11 @@ impl Term {
         )
     }
     pub fn needs_tok(self) -> bool {
-        matches!(self, Term::Fold | Term::Sum | Term::Min | Term::Max | Term::MinBy | Term::MaxBy | Term::MinByKey | Term::MaxByKey | Term::MinTie | Term::MaxTie)
+        matches!(self, Term::Fold | Term::Sum | Term::Min | Term::Max | Term::MinBy | Term::MaxBy | Term::MinByKey | Term::MaxByKey | Term::MinTie | Term::MaxTie) || self.is_zst()
+    }
+    /// terminals over a zero-sized item type
+    pub fn is_zst(self) -> bool {
+        matches!(self, Term::ZCollect | Term::ZCollectVec | Term::ZCollectX | Term::ZIntoSplit | Term::ZIntoVec)
     }
     pub fn uses_pred(self) -> bool {
         matches!(self, Term::Find | Term::Any | Term::All | Term::FindIdx)
@@ -268,6 +283,11 @@ impl VisitTok for TermV {
             Term::MaxByKey => r(q.max_by_key(cl::key())),
             Term::MinTie => r(q.map(crate::tok::TieTok).min().map(|t| t.0)),
             Term::MaxTie => r(q.map(crate::tok::TieTok).max().map(|t| t.0)),
+            Term::ZCollect => TermResult::Count(q.map(drop::<Tok>).collect().len()),
+            Term::ZCollectVec => TermResult::Count(q.map(drop::<Tok>).collect_vec().len()),
+            Term::ZCollectX => TermResult::Count(q.map(drop::<Tok>).collect_x().len()),
+            Term::ZIntoSplit => TermResult::Count(q.map(drop::<Tok>).collect_into(SplitVec::<(), Doubling>::with_doubling_growth()).len()),
+            Term::ZIntoVec => TermResult::Count(q.map(drop::<Tok>).collect_into(vec![(), ()]).len() - 2),
             _ => TermResult::NA,
         }
     }
